@@ -813,7 +813,9 @@ func genDims(rt *rapid.T, label string, tuple bool) string {
 
 // genParam draws one parameter (schema kinds, convseq and - through genParams - the ABIs).
 func genParam(rt *rapid.T, label string, name string, depth int) T {
-	return genParamOpt(rt, label, name, depth, 90)
+	ts := []T{genParamOpt(rt, label, name, depth, 90)}
+	markMembersIndexed(rt, label+".mi", ts, 15) // (the ABIs and the definitions flag members themselves, per kind of entry)
+	return ts[0]
 }
 
 // rare is true with a probability of roughly k * 0.034 %.  (rapid's integer draws favour
@@ -904,6 +906,35 @@ func markIndexed(rt *rapid.T, label string, inputs []T, anonymous bool) {
 	}
 }
 
+// markMembersIndexed sets "indexed": true on tuple MEMBERS - below the top level, where markIndexed
+// never looks.  The compiler only sets the flag on the top-level inputs of an event, but the ABI
+// JSON format and the library's Parameter type carry it on every parameter object, and the
+// interface format has a details.indexed slot at every level: "the same ... indexed flags as the
+// original" is therefore a statement about every node of the tree.  About pct % of the tuples
+// (alone, under array dimensions, nested in other tuples) get a non-empty set of flagged members;
+// a flagged member does not use up a log topic (topics belong to top-level parameters).
+func markMembersIndexed(rt *rapid.T, label string, ts []T, pct int) {
+	for i := range ts {
+		t := &ts[i]
+		if len(t.Components) == 0 {
+			continue
+		}
+		l := fmt.Sprintf("%s.%d", label, i)
+		if rapid.IntRange(0, 99).Draw(rt, l+".midx") >= 100-pct { // (the upper end: shrinking removes the flags)
+			any := false
+			for j := range t.Components {
+				if rapid.Bool().Draw(rt, fmt.Sprintf("%s.midx%d", l, j)) {
+					t.Components[j].Indexed, any = true, true
+				}
+			}
+			if !any {
+				t.Components[rapid.IntRange(0, len(t.Components)-1).Draw(rt, l+".midx.at")].Indexed = true
+			}
+		}
+		markMembersIndexed(rt, l, t.Components, pct)
+	}
+}
+
 func countIndexed(inputs []T) (n int) {
 	for _, p := range inputs {
 		if p.Indexed {
@@ -922,6 +953,13 @@ func genParamsN(rt *rapid.T, label string, n int, depth int) []T {
 	out := make([]T, 0, n)
 	for i, name := range names {
 		out = append(out, genParamOpt(rt, fmt.Sprintf("%s.%d", label, i), name, depth, 90))
+	}
+	return out
+}
+
+func ptrs(ts []T) (out []*T) {
+	for i := range ts {
+		out = append(out, &ts[i])
 	}
 	return out
 }
@@ -951,9 +989,20 @@ func genABI(rt *rapid.T) ABICase {
 			e.Anonymous = rapid.IntRange(0, 2).Draw(rt, label+".anon") == 1
 			e.Inputs = genParamsN(rt, label+".in", rapid.SampledFrom([]int{0, 1, 2, 3, 3, 4, 4, 5, 6}).Draw(rt, label+".in.n"), 2)
 			markIndexed(rt, label, e.Inputs, e.Anonymous)
+			markMembersIndexed(rt, label+".in", e.Inputs, 45)
 		default:
 			e.Type = "error"
 			e.Inputs = genParams(rt, label+".in", 3, 2)
+		}
+		if e.Type != "event" {
+			// functions and errors: the flag means nothing to the EVM there, but the formats carry it all the same
+			markMembersIndexed(rt, label+".in", e.Inputs, 15)
+			markMembersIndexed(rt, label+".out", e.Outputs, 15)
+			if rare(rt, label+".topidx", 60) { // about 2 % of them: a flagged top-level parameter
+				if all := append(append([]*T{}, ptrs(e.Inputs)...), ptrs(e.Outputs)...); len(all) > 0 {
+					all[rapid.IntRange(0, len(all)-1).Draw(rt, label+".topidx.at")].Indexed = true
+				}
+			}
 		}
 		if e.Inputs == nil {
 			e.Inputs = []T{}
@@ -975,6 +1024,8 @@ type abiStats struct {
 	maxDepth                                          int
 	// member-less tuples, by where they sit (labels of the evidence histogram)
 	memberless map[string]bool
+	// tuple members flagged as indexed, by where they sit
+	indexedMember map[string]bool
 }
 
 func (s *abiStats) visit(t T, depth int, insideTuple bool) {
@@ -1041,6 +1092,30 @@ func (s *abiStats) visitIn(t T, depth int, insideTuple bool, where string) {
 			s.maxDepth = depth + 1
 		}
 		for i, c := range t.Components {
+			if c.Indexed {
+				if s.indexedMember == nil {
+					s.indexedMember = map[string]bool{}
+				}
+				s.indexedMember["any"] = true
+				if where != "" {
+					s.indexedMember[where] = true
+				}
+				if insideTuple {
+					s.indexedMember["member-of-tuple-nested-in-tuple"] = true
+				}
+				if nd > 0 {
+					s.indexedMember["member-of-tuple-under-array-dimensions"] = true
+				}
+				if strings.HasPrefix(c.Type, "tuple") {
+					s.indexedMember["member-is-a-tuple"] = true
+				}
+				if !t.Indexed {
+					s.indexedMember["parent-not-indexed"] = true
+				}
+				if c.Name == "" {
+					s.indexedMember["unnamed-member"] = true
+				}
+			}
 			if c.Name == "" {
 				s.unnamedMember = true
 				if s.unnamedMemberWhere == nil {
@@ -1474,6 +1549,7 @@ func TestCheck(t *testing.T) {
 	rec.Assume("tuples have 0..4 members: a member-less tuple (component list absent or present and empty; about 3 % of the top-level parameters, 0.7 % of the nested ones; alone, under 1..3 array dimensions, inside other tuples, as input, output, event input - indexed or not - and error input) is spelled (), ()[], ()[3][] by the reference renderer and takes part in the helper-signature clause and in the whole round trip like every other tuple (the interface format represents it as an object schema without properties)")
 	rec.Assume("tuple member names are pairwise distinct (the quantifier): that admits ONE member without a name per tuple (about one tuple in four has one: top level, nested, under array dimensions, in inputs, outputs, events and errors; also a tuple-typed unnamed member) and members named like decimal numbers (\"0\", \"1\", \"10\", \"01\", often the position of a sibling); every name must come back verbatim - unnamed stays unnamed. Two unnamed members of one tuple share the name \"\" and are outside the quantifier (the interface format keys members by name); top-level parameters are a list and may be unnamed any number of times")
 	rec.Assume("events: an ordinary event has up to 3 indexed parameters, an anonymous one up to 4 (the EVM's four log topics, the first of which holds the signature hash of an ordinary event); half of the generated events use the whole allowance; the interface format carries 'anonymous' in the event details, so both kinds must survive the round trip. Nothing is claimed about events with more indexed parameters than topics (not generated); preservation of the anonymous flag itself is not asserted")
+	rec.Assume("indexed flags are compared at EVERY level of the parameter tree: besides the top-level event inputs (the only place the compiler sets the flag) about 45 % of the tuples of event inputs and 15 % of the tuples of function inputs / outputs and error inputs carry \"indexed\": true on some of their MEMBERS (members of nested tuples, of tuples under array dimensions, tuple-typed and unnamed members included), and about 2 % of the functions and errors flag one top-level parameter - the ABI JSON format and the library's parameter type carry the flag on every parameter object, and the interface format has a details.indexed slot at every level (kinds abi, shared, def, the concurrent batches; the schema kinds see such schemas as mutation bases). A flagged member does not use up a log topic")
 	rec.Assume("a parameter without a usable schema - FFIParam.Schema nil (in a JSON document: member absent or null), empty or white-space text, text that is not JSON (json.Valid), a JSON value that is not an object - cannot say which Ethereum type it has: the conversion must report an error (kinds schema, def, convseq; at any position of the parameter or return list). Definitions are handed over built in Go and as JSON documents decoded by encoding/json into the fftypes definition types")
 	rec.Assume("kind def: schemas of the well-formed parameters are built by the package's own schemaFor (not by the library's ABI -> FFI direction); a definition whose parameters are all well-formed must be accepted and reproduce the modelled names, types, nesting and indexed flags")
 	rec.Assume("schema oracle: analyse() — generic-JSON analyser for the inconsistencies the property names (array without items; member position missing, colliding, out of range; JSON type definitely at odds with details.type at the top level); it returns 'nothing provable' for every shape it does not understand")
@@ -1527,6 +1603,14 @@ func TestCheck(t *testing.T) {
 		add(idx0, "abi:event:none-indexed")
 		for _, w := range sortedBoolKeys(s.memberless) {
 			cl = append(cl, "abi:member-less-tuple:"+w)
+		}
+		for _, w := range sortedBoolKeys(s.indexedMember) {
+			cl = append(cl, "abi:indexed-tuple-member:"+w)
+		}
+		for _, e := range c.ABI {
+			if e.Type != "event" && e.Type != "constructor" && countIndexed(e.Inputs)+countIndexed(e.Outputs) > 0 {
+				cl = append(cl, "abi:indexed-top-level-parameter-of-"+e.Type)
+			}
 		}
 		seenType := map[string]bool{}
 		for _, e := range c.ABI {
